@@ -8,5 +8,6 @@ printf 'use vstd::prelude::*;\nverus!{ proof fn warm() ensures 1 + 1 == 2int {} 
 # replay crate (real rsdd code, hooks on)
 (cd replay && RUSTFLAGS='--cfg rsdd_verif' CARGO_TARGET_DIR=../build/replay-target cargo build --release --offline >/dev/null 2>&1 || echo "setup: replay crate build failed (checks rebuild it on demand)")
 # kani crate: compile the harnesses once (verification happens in the checks)
-(cd kani && CARGO_TARGET_DIR=../build/kani-target timeout 900 cargo kani --only-codegen -Z function-contracts -Z stubbing >/dev/null 2>&1 || true)
+mkdir -p build/kani-gen; python3 -c "import sys; sys.path.insert(0,'.'); from vfw import kani_run; kani_run.gen_inputs('/repo','build')"
+(cd kani && VERIF_KANI_GEN=$(pwd)/../build/kani-gen CARGO_TARGET_DIR=../build/kani-target timeout 900 cargo kani --only-codegen -Z function-contracts -Z stubbing >/dev/null 2>&1 || true)
 exit 0
